@@ -98,8 +98,9 @@ func isInvalidation(in ssa.Instruction, depth int) bool {
 	return ok2
 }
 
-func c14R2(c *core.Ctx) {
-	rule := "C14.R2"
+func c14R2(c *core.Ctx) { c14R2as(c, "C14.R2") }
+
+func c14R2as(c *core.Ctx, rule string) {
 	c.Rule(rule, "cache coherence: after buntdb Tx.Set on a Durable's store, the read cache entry of that key is deleted or rewritten on every path — in the writing function or, propagated upwards, after the call in every caller up to the exported methods of Durable; freshly created Durable objects are exempt", 2)
 	pk := c.P.SSAPkg("internal/event/crdt")
 	if pk == nil {
